@@ -134,6 +134,8 @@ class Models:
             return None
         if name in ('omp_get_thread_num',): return z3.IntVal(0)
         if name in ('omp_get_max_threads', 'omp_get_num_threads'): return z3.IntVal(1)
+        if name == 'now':
+            return Opaque('time_point')
         h = getattr(self, 'fn_' + name, None)
         if h is not None: return h(st, rd, args, n, fr)
         raise Unsupported('no model for function %s at %s' % (name, e.where(n, fr)))
@@ -231,6 +233,12 @@ class Models:
 
     def construct_heap_class(self, n, t, args, ctor_t, st, fr):
         e = self.e
+        if t.name.startswith('std::') or t.name.startswith('__gnu_cxx::'):
+            for a_ in args:
+                try: e.ev(a_, st, fr)
+                except Unsupported: pass
+            self.used('%s: opaque object, results of its operations are unconstrained values' % t.name.split('<')[0])
+            return Opaque(t.name)
         if self.is_copy_move_ctor(t, ctor_t) and len(args) == 1:
             src = e.ev(args[0], st, fr)
             if isinstance(src, ObjLV):
@@ -339,8 +347,25 @@ class Models:
     def flist_clear(self, st, obj):
         pass
 
+    # std::set<edge>: finite map keyed by the ordered node pair (n1 < n2); DESIGN A.5
+    def set_arrays(self, st):
+        e = self.e
+        A2B = z3.ArraySort(I, z3.ArraySort(I, z3.ArraySort(I, B)))
+        A2I = z3.ArraySort(I, z3.ArraySort(I, z3.ArraySort(I, I)))
+        return {'present': e.harr(st, 'set.present', A2B), 'has1': e.harr(st, 'set.has1', A2B), 'has2': e.harr(st, 'set.has2', A2B),
+                'f1': e.harr(st, 'set.f1', A2I), 'f2': e.harr(st, 'set.f2', A2I)}
+
     def set_clear(self, st, obj):
-        raise Unsupported('std::set model not loaded')
+        e = self.e
+        self.set_arrays(st)
+        st.heap['set.present'] = z3.Store(st.heap['set.present'], obj.ref, z3.K(I, z3.K(I, z3.BoolVal(False))))
+        e.hwrite(st, 'set.size', obj.ref, z3.IntVal(0))
+
+    def m_set_clear(self, st, obj, bt, args, n, fr): self.set_clear(st, obj)
+    def m_set_size(self, st, obj, bt, args, n, fr):
+        sz = self.e.hread(st, 'set.size', obj.ref, I)
+        st.pc.append(sz >= 0)
+        return sz
 
     def subscript(self, st, base, idx, n, fr):
         e = self.e
@@ -361,10 +386,23 @@ class Models:
         if e.safety_on('bounds'):
             e.oblige(st, 'safety:' + what, z3.And(idx >= 0, idx < e.vec_len(st, vref)), where=e.where(n, fr))
 
+    def opaque_result(self, n, what):
+        e = self.e
+        t = TY.of_node(n)
+        if t.kind == 'void': return None
+        if e.is_value_type(t.noref()) and not t.ref: return e.fresh_value(t.noref(), 'opaque.' + what)
+        return Opaque(what)
+
     def member_call(self, st, obj, bt, name, args, n, fr):
         """member function of a library type"""
         e = self.e
         bt = bt.noref()
+        if isinstance(obj, LVS) and not isinstance(obj, ObjLV):
+            ov = e.load(st, obj)
+            if isinstance(ov, Opaque): obj = ov
+        if isinstance(obj, Opaque):
+            for a_ in args: e.ev(a_, st, fr)
+            return self.opaque_result(n, obj.what.split('<')[0] + '.' + name)
         if isinstance(obj, ObjLV): bt = obj.ty if obj.ty.kind != 'record' else bt
         k = bt.kind
         if k == 'ptr' and isinstance(obj, LVS) and not isinstance(obj, ObjLV):
@@ -435,12 +473,16 @@ class Models:
                 except Unsupported: pass
             return e.ev(args[0], st, fr) if args[0]['kind'] != 'DeclRefExpr' else Opaque('stream')
         if name == 'operator()':
-            f = e.rv(args[0], st, fr)
+            f = e.ev(args[0], st, fr)
+            if isinstance(f, LVS) and not isinstance(f, ObjLV): f = e.load(st, f)
             if isinstance(f, Closure): return e.call_closure(f, args[1:], st, fr, n)
             return self.callable_object(st, f, args, n, fr)
         raise Unsupported('no model for %s on %r at %s' % (name, a0t, e.where(n, fr)))
 
     def callable_object(self, st, f, args, n, fr):
+        if isinstance(f, Opaque):
+            for a_ in args[1:]: self.e.ev(a_, st, fr)
+            return self.opaque_result(n, f.what.split('<')[0] + '()')
         raise Unsupported('call of a library function object')
 
     # iterators ------------------------------------------------------------------------
